@@ -94,6 +94,11 @@ ColDomain(c) ==
       s1 == ApplyBounds(s0, c.bounds)
       s2 == IF ~s1.hasLower /\ IsFin(s1.hi) /\ RLess(s1.hi, Zero) THEN [s1 EXCEPT !.lo = NInf] ELSE s1
   IN [discrete |-> s2.kind \in {"integer", "binary"}, lo |-> s2.lo, hi |-> s2.hi]
+\* the KIND of a loaded column: a discrete column is Integer, or Binary -- the latter only when its domain is {0,1}
+\* (BV, or the SDK's convention of turning an integer column with bounds [0,1] into a binary one; an implementation
+\* that keeps such a column Integer [0,1] says the same thing).  A column fixed to 1 is not binary.
+KindOK(kind, d) == IF ~d.discrete THEN kind = "continuous"
+                   ELSE kind = "integer" \/ (kind = "binary" /\ d.lo = Zero /\ d.hi = One)
 \* MPS readers disagree about an upper bound of exactly 0 given without any lower bound: some open the lower bound as
 \* for a negative one, others (CPLEX) keep the default 0.  The property speaks of a NEGATIVE upper bound only, so for
 \* this one input both readings are accepted.
@@ -156,5 +161,6 @@ MpsLoadClauses(m, raw, byId) ==
     constraint_names |-> (namesOK /\ ~byId) => \A i \in plainRows : \E c \in conByName(m.rows[i].name) :
                             gotOf(c) = conv(M.cons[i][1]),
     domains |-> namesOK => \A n \in DOMAIN n2i : LoadedDomain(VarOf(raw, n2i[n])) \in ColDomains(m.cols[CHOOSE j \in DOMAIN m.cols : m.cols[j].name = n]),
+    kinds |-> namesOK => \A n \in DOMAIN n2i : KindOK(VarOf(raw, n2i[n]).kind, LoadedDomain(VarOf(raw, n2i[n]))),
     unique_ids |-> UniqueVarIds(raw) /\ UniqueConIds(raw) ]
 =============================================================================
